@@ -198,6 +198,13 @@ impl AssemblyWindow {
     }
 }
 
+#[cfg(uflow_verif)]
+impl AssemblyWindow {
+    pub fn verif_alloc(&self) -> usize {
+        self.alloc
+    }
+}
+
 #[cfg(test)]
 mod tests {
     use super::*;
